@@ -201,7 +201,7 @@ def narrowing_rule(F, R, rid, text, pred, floor):
         if r_src and r_to and r_to[0] <= r_src[0] and r_src[1] <= r_to[1]:
             continue            # widening by type: nothing to prove
         n += 1
-        fn = re.sub(r"\{closure#\d+\}", "{closure}", re.sub(r"<impl [^>]*>+", "<impl>", f.path))
+        fn = M.fn_key(f.path)
         base = "%s:cast:%s->%s:%s" % (fn, sty, to, f.describe(s["rv"]["a"]))
         k = seen.get(base, 0) + 1
         seen[base] = k
